@@ -135,13 +135,8 @@ def showVal : Val → String
       | none => "-"
       | some b => toString b.count ++ ";" ++ (if b.bs.isEmpty then "_" else joinWith "," ((sortBonds b.bs).map showBond))
     -- observed dtypes: the container stores float32 coordinates/boxes; the kind of a column follows its category
-    let kind (k : String) : String :=
-      if k == "res_id" then "i" else if k == "hetero" then "b"
-      else if mandatory.contains k then "U"
-      else match k.toList with
-        | 'i' :: _ => "i" | 'f' :: _ => "f" | 's' :: _ => "U" | 'b' :: _ => "b" | _ => "?"
     let dt := "f4," ++ (if a.box.isSome then "f4" else "-") ++ ";" ++
-      joinWith "," ((sortCols a.annot).map (fun p => p.1 ++ ":" ++ kind p.1))
+      joinWith "," ((sortCols a.annot).map (fun p => p.1 ++ ":" ++ kindOf p.1))
     (if a.stack then "S" else "A") ++ "|" ++ toString a.n ++ "|" ++ cols ++ "|" ++ coord ++ "|" ++ box ++ "|" ++ bonds
       ++ "|" ++ dt
 
